@@ -2,6 +2,7 @@ package rlwe
 
 import (
 	"fmt"
+	"io"
 
 	"github.com/tuneinsight/lattigo/v6/ring"
 	"github.com/tuneinsight/lattigo/v6/ring/ringqp"
@@ -298,8 +299,14 @@ func (kgen KeyGenerator) genEvaluationKey(skIn ring.Poly, skOut ringqp.Poly, evk
 	// For a compressed evaluation key, a seed is created and stored in the EvaluationKey struct
 	// struct while an uncompressed key uses an ephemeral seed.
 	if evk.IsCompressed() {
+		// The seed stands for the uniform elements of the key: it comes from the source of
+		// the uniform elements (the one bound with WithPRNG, if any).
+		src := kgen.prng
+		if kgen.uniformPRNG != nil {
+			src = kgen.uniformPRNG
+		}
 		var seed [32]byte
-		if n, err := kgen.prng.Read(seed[:]); n != 32 || err != nil {
+		if n, err := io.ReadFull(src, seed[:]); n != 32 || err != nil {
 			panic(fmt.Errorf("unable to sample evaluation key seed"))
 		}
 		evk.Seed = &seed
